@@ -101,6 +101,87 @@ def scaled_variants(case):
     return out
 
 
+BIG_ODD = (1 << 55) + 3        # not representable as a double once multiplied by a small odd length
+
+
+def _dims_of(e):
+    dims, depth, cur = [], 0, ""
+    for ch in e:
+        if ch == "(":
+            depth += 1
+        if ch == ")":
+            depth -= 1
+        if ch == " " and depth == 0:
+            dims.append(cur)
+            cur = ""
+        else:
+            cur += ch
+    dims.append(cur)
+    return dims
+
+
+def scaled_unknown_variants(case):
+    """an axis that is NOT given by a keyword (its length has to be solved for, e.g. by dividing a flattened dimension by
+    the known factors) gets a huge odd length: every dimension linear in it is multiplied by BIG_ODD.  The solution set
+    is the image of the original one (product constraints are homogeneous), so the verdict and Propagate are unchanged."""
+    out = []
+    if case["verdict_axes"] != "unique" or "..." in case["toks"] or "+" in case["toks"] or any(sh == [-1] for sh in case["shapes"]):
+        return out
+    sol = case["sol"][0]
+    if not isinstance(sol.get("L"), dict):
+        return out
+    given = {k["n"] for k in case["kw"]}
+    exprs = "".join(case["toks"]).split(", ")
+    for n in sorted(sol["L"]):
+        if n in given or "." in n or n.startswith("_") or not n.isalpha():
+            continue
+        c2 = json.loads(json.dumps(case))
+        ok, hit = True, False
+        for i, (e, sh) in enumerate(zip(exprs, case["shapes"])):
+            dims = _dims_of(e)
+            if len(dims) != len(sh):
+                ok = False
+                break
+            for j, dtxt in enumerate(dims):
+                occ = dtxt.replace("(", " ").replace(")", " ").replace("[", " ").replace("]", " ").split().count(n)
+                if occ > 1:
+                    ok = False
+                if occ == 1:
+                    c2["shapes"][i][j] = sh[j] * BIG_ODD
+                    hit = True
+        if not (ok and hit):
+            continue
+        s2 = json.loads(json.dumps(sol))
+        s2["L"][n] = sol["L"][n] * BIG_ODD
+        s2["shapes"] = [list(x) for x in c2["shapes"]]
+        c2["sol"] = [s2]
+        c2["scaled"] = "unknown-axis"
+        if all(v < (1 << 62) for sh in c2["shapes"] for v in sh):
+            out.append(c2)
+    return out
+
+
+def zero_variants(case):
+    """a dimension or a keyword size of 0: products and sums of positive integers are >= 1, so no assignment of positive
+    integers satisfies the system - it has to be rejected whatever else it says"""
+    out = []
+    if "..." in case["toks"] or any(sh == [-1] for sh in case["shapes"]) or not case["shapes"] or not case["shapes"][0]:
+        return out
+    for (i, j) in {(0, 0), (len(case["shapes"]) - 1, len(case["shapes"][-1]) - 1)}:
+        if not case["shapes"][i]:
+            continue
+        c2 = json.loads(json.dumps(case))
+        c2["shapes"][i][j] = 0
+        c2.update({"verdict_axes": "none", "verdict_shapes": "none", "sol": [], "nsol": 0, "propagate": False, "zero": "dimension", "opaque_solvable": False})
+        out.append(c2)
+    for kwi, k in enumerate(case["kw"][:1]):
+        c2 = json.loads(json.dumps(case))
+        c2["kw"][kwi]["v"] = [0] * len(k["v"])
+        c2.update({"verdict_axes": "none", "verdict_shapes": "none", "sol": [], "nsol": 0, "propagate": False, "zero": "keyword", "opaque_solvable": False})
+        out.append(c2)
+    return out
+
+
 def run(tier):
     rep = common.Report("C02", tier)
     rep.rule = ("systems = expression list from the pool x hidden assignment x {no perturbation, +1 on one dimension, last dimension dropped} x at most one unknown "
@@ -117,9 +198,17 @@ def run(tier):
     extra = []
     for c in cases:
         extra.extend(scaled_variants(c))
+    extra2, extra3 = [], []
+    for c in cases:
+        extra2.extend(scaled_unknown_variants(c))
+        extra3.extend(zero_variants(c))
     if tier == "quick":
         extra = extra[::5]
-    items += extra
+        extra2 = extra2[::5]
+        extra3 = extra3[::7]
+    rep.extra["scaled_unknown_axis_cases"] = len(extra2)
+    rep.extra["zero_size_cases"] = len(extra3)
+    items += extra + extra2 + extra3
     results = common.parallel_map("run_chunk", DS, items)
     verd = {}
     for c, fs in zip(items, results):
@@ -134,7 +223,7 @@ def run(tier):
                 raise common.MachineryError(f["detail"])
             if f["kind"] == "unsound:none" and c.get("opaque_solvable"):
                 f["kind"] = "unsound:none:solvable-when-parenthesised-axes-are-opaque"
-            feats = sorted({t for t in c["toks"] if t in ("...", "+", "(")} | ({"scaled"} if c.get("scaled") else set()) | ({"unknown_shape"} if [-1] in c["shapes"] else set()))
+            feats = sorted({t for t in c["toks"] if t in ("...", "+", "(")} | ({"scaled"} if c.get("scaled") else set()) | ({"zero-" + c["zero"]} if c.get("zero") else set()) | ({"unknown_shape"} if [-1] in c["shapes"] else set()))
             rep.violation({"kind": f["kind"], "api": f["api"], "features": feats},
                           {"case": c}, "%s(%r, shapes=%s, %s): %s" % (f["api"], desc, c["shapes"], {k["n"]: k["v"] for k in c["kw"]}, f["detail"]))
     rep.extra["verdicts"] = verd
